@@ -125,8 +125,9 @@ class Fn:
                                                    'std::forward', 'qAsConst', 'std::as_const',
                                                    'QString::fromUtf8', 'QString::fromLatin1', 'QString::toUtf8',
                                                    'QString::toLatin1') and (n.get('args') or n.get('obj') is not None) \
-                    and len(n.get('args', [])) <= 1:
-                nid = n['args'][0] if n.get('args') else n['obj']
+                    and len([a for a in n.get('args', []) if self.nodes[a]['k'] != 'defarg']) <= 1:
+                real = [a for a in n.get('args', []) if self.nodes[a]['k'] != 'defarg']
+                nid = real[0] if real else n['obj']
             else:
                 return nid
         return nid
